@@ -233,6 +233,23 @@ package jp
 //@     assert [C11 nth-hit] spec.NormIndex(i0, len(tv)) >= 0 ==> has && v == tv[spec.NormIndex(i0, len(tv))]
 //@     assert [C11 nth-miss] spec.NormIndex(i0, len(tv)) < 0 ==> has == has0 && v == v0
 
+// Locate resolves an index fragment to the same element (the normalised index is what the returned location carries).
+//@ func (Nth).locate
+//@   region nthAny = case []any
+//@     let i0 = i
+//@     let n = len(td)
+//@     let has0 = has
+//@     let v0 = v
+//@     assert [C11 nth-hit] spec.NormIndex(i0, len(td)) >= 0 ==> has && v == td[spec.NormIndex(i0, len(td))] && i == spec.NormIndex(i0, len(td))
+//@     assert [C11 nth-miss] spec.NormIndex(i0, len(td)) < 0 ==> has == has0 && v == v0
+//@   region nthGenArray = case gen.Array
+//@     let i0 = i
+//@     let n = len(td)
+//@     let has0 = has
+//@     let v0 = v
+//@     assert [C11 nth-hit] spec.NormIndex(i0, len(td)) >= 0 ==> has && v == td[spec.NormIndex(i0, len(td))] && i == spec.NormIndex(i0, len(td))
+//@     assert [C11 nth-miss] spec.NormIndex(i0, len(td)) < 0 ==> has == has0 && v == v0
+
 // ---------------------------------------------------------------------------
 // Filter scripts are total (C12): evaluating the prefix-notation program never raises a runtime fault, for every operator
 // and every kind of operand on either side (thin safety contracts: every implicit obligation on every path of evalStack
